@@ -1,11 +1,11 @@
 (* C02 — Every send future resolves once, with the record's true coordinates.
    Public statements only.  Models: model/C02_Done.v (MessageBatch.done/done_noack/failure,
-   response decoding per produce version; hand model tied by differential testing against the
-   real methods on every run) and model/Producer.v (batch life cycle; tied by trace
+   response decoding per produce version; hand model proved equal to the functions translated from the
+   source on every run - gen/DoneGen.v - and differentially tested against the real methods) and model/Producer.v (batch life cycle; tied by trace
    acceptance of the real producer under the simulator). *)
 From Coq Require Import ZArith List Bool.
 From Verif Require Import DispatchActs ProduceDispatch C02_dispatch.
-From Verif Require Import Imp IncrSeq Producer C01_proof C02_Done C02_proof.
+From Verif Require Import Imp IncrSeq Producer C01_proof C02_Done C02_proof DoneGen C02_gen_proof.
 Import ListNotations.
 Open Scope Z_scope.
 
@@ -18,6 +18,29 @@ Theorem c02_done_coordinates : forall base bts ls fs k r,
     r = RMeta (base + f_rel f) (if bts =? -1 then f_ts f else bts) (if bts =? -1 then 0 else 1) ls.
 Proof. exact done_coordinates. Qed.
 Print Assumptions c02_done_coordinates.
+
+(* tie T: the three resolution methods as translated from aiokafka/producer/message_accumulator.py on this run
+   (gen/DoneGen.v) ARE the model functions the statements of this file speak about, for every input *)
+Theorem c02_done_is_translated : forall base bts ls fs,
+  DoneGen.done_py base bts ls fs = done base bts ls fs /\
+  DoneGen.done_noack_py fs = done_noack fs /\
+  DoneGen.failure_py fs = failure fs.
+Proof. intros. exact (conj (done_py_eq base bts ls fs) (conj (done_noack_py_eq fs) (failure_py_eq fs))). Qed.
+Print Assumptions c02_done_is_translated.
+
+(* hence the coordinates statement holds of the translated source function itself *)
+Theorem c02_done_coordinates_of_source : forall base bts ls fs k r,
+  In (k, r) (DoneGen.done_py base bts ls fs) <->
+  exists f, nth_error fs k = Some f /\ f_done f = false /\
+    r = RMeta (base + f_rel f) (if bts =? -1 then f_ts f else bts) (if bts =? -1 then 0 else 1) ls.
+Proof. intros. rewrite done_py_eq. apply done_coordinates. Qed.
+Print Assumptions c02_done_coordinates_of_source.
+
+(* the batch's own future (returned by send_batch()): base offset and the broker's timestamp *)
+Theorem c02_batch_future_of_source : forall base bts ls,
+  DoneGen.done_main_py base bts ls = RMeta base bts (if bts =? -1 then 0 else 1) ls.
+Proof. exact done_main_py_eq. Qed.
+Print Assumptions c02_batch_future_of_source.
 
 Theorem c02_done_once : forall base bts ls fs, NoDup (map fst (done base bts ls fs)).
 Proof. exact done_once. Qed.
